@@ -16,7 +16,8 @@ RULE = (
     "Hypothesis draws a module (compartment/branch/cell/network, <=12 compartments), 1-4 channels out of "
     "HH/Na/K/Km/CaL/CaT/Leak (some renamed, possibly two instances of one class) inserted on drawn compartment "
     "subsets, per-compartment v in [-120,60] (floats + exact singular voltages), per-compartment vt, taumax, vx and "
-    "arbitrary pre-existing gate values. After init_states(): (a) each written gate equals the published steady state "
+    "arbitrary pre-existing gate values; then, on the same module object, new vt/taumax/vx (and sometimes v) are set - sometimes after an "
+    "integrate call - and init_states() is called a second time. After each init_states(): (a) each written gate equals the published steady state "
     "(R2) for that compartment's own v and parameters, (b) a further update_states at the same v with dt in "
     "{1e-3,0.025,1,1e3} moves no gate by more than 1e-10, (c) every other cell of .nodes is bit-identical. One "
     "evaluation per (channel, gate, compartment). Non-trivial: >=2 channels, a partial insertion and non-uniform v; "
@@ -38,7 +39,7 @@ MECHS = ["HH", "Na", "K", "Km", "CaL", "CaT", "Leak"]
 
 
 def budget(tier):
-    return 60 if tier == "quick" else 800
+    return 40 if tier == "quick" else 800
 
 
 @st.composite
@@ -77,6 +78,14 @@ def _spec(draw, tier):
         "taumax": [draw(fl(200.0, 8000.0)) for _ in range(N)],
         "vx": [draw(fl(-10.0, 10.0)) for _ in range(N)],
         "gate0": [draw(fl(0.0, 1.0)) for _ in range(N)],
+    }
+    # second round on the SAME module object: change parameters / voltages, call init_states() again
+    spec["round2"] = {
+        "vt": [draw(st.one_of(st.sampled_from(NICE_VT), fl(-75.0, -45.0))) for _ in range(N)],
+        "taumax": [draw(fl(200.0, 8000.0)) for _ in range(N)],
+        "vx": [draw(fl(-10.0, 10.0)) for _ in range(N)],
+        "v": [draw(fl(-120.0, 60.0)) for _ in range(N)] if draw(st.booleans()) else None,
+        "integrate_between": draw(st.booleans()),
     }
     return spec
 
@@ -135,6 +144,39 @@ def judge(spec, tier="quick"):
         out.notes.append("build failed: " + err.short())
         return out
     m, objs = res
+    _round(spec, m, objs, out, 1)
+    r2 = spec.get("round2")
+    if r2 and not out.violations:
+        if r2["integrate_between"]:
+            import jaxley as jx
+            m.record("v", verbose=False)
+            core.call(lambda: jx.integrate(m, t_max=0.05))
+            m.delete_recordings()
+        spec2 = dict(spec, vt=r2["vt"], taumax=r2["taumax"], vx=r2["vx"], v=r2["v"] or spec["v"])
+        _set_on_owner_rows(m, "v", spec2["v"])
+        _set_on_owner_rows(m, "vt", spec2["vt"])
+        for c in spec["channels"]:
+            pre = c["name"] or c["mech"]
+            if c["mech"] == "Km":
+                _set_on_owner_rows(m, f"{pre}_taumax", spec2["taumax"])
+            if c["mech"] == "CaT":
+                _set_on_owner_rows(m, f"{pre}_vx", spec2["vx"])
+        out.classes.append("second init_states after set" + (" and integrate" if r2["integrate_between"] else ""))
+        _round(spec2, m, objs, out, 2)
+    partial = any(len(c["rows"]) < len(m.nodes) for c in spec["channels"])
+    if len(spec["channels"]) >= 2 and partial and len(set(spec["v"])) > 1:
+        out.nontrivial_keys.append(core.h([spec["morph"]["cells"], [(c["mech"], c["name"], c["rows"]) for c in spec["channels"]], spec["v"]]))
+    out.classes.append(f"{len(spec['channels'])} channels")
+    if partial:
+        out.classes.append("partial insertion")
+    for c in spec["channels"]:
+        out.classes.append(c["mech"] + (":renamed" if c["name"] else ""))
+    return out
+
+
+def _round(spec, m, objs, out, rnd):
+    import jax.numpy as jnp
+
     before = m.nodes.copy(deep=True)
     _, err = core.call(m.init_states)
     if err:
@@ -160,7 +202,7 @@ def judge(spec, tier="quick"):
             bad = ~(np.abs(got - x_inf) <= 1e-7)
             if bad.any():
                 i = int(np.argmax(bad))
-                out.violate(f"steady:{mech}.{g}", f"{mech}({pre}).{g} at compartment {rows[i]} (v={v[rows][i]!r}): init_states wrote {got[i]!r}, "
+                out.violate(f"steady:{mech}.{g}", f"round {rnd}: {mech}({pre}).{g} at compartment {rows[i]} (v={v[rows][i]!r}): init_states wrote {got[i]!r}, "
                             f"steady state {x_inf[i]!r}")
         # fixed point of its own update rule
         if table["gates"] and not out.violations:
@@ -183,7 +225,7 @@ def judge(spec, tier="quick"):
                     bad = ~(np.abs(new - old) <= 1e-10)
                     if bad.any():
                         i = int(np.argmax(bad))
-                        out.violate(f"fixed-point:{mech}.{g}", f"{mech}({pre}).{g} at compartment {rows[i]} (v={v[rows][i]!r}): after init_states "
+                        out.violate(f"fixed-point:{mech}.{g}", f"round {rnd}: {mech}({pre}).{g} at compartment {rows[i]} (v={v[rows][i]!r}): after init_states "
                                     f"{old[i]!r}, a further update with dt={dt} gives {new[i]!r}")
     # frame condition: everything not written is bit-identical
     if list(before.columns) != list(after.columns) or len(before) != len(after):
@@ -202,14 +244,6 @@ def judge(spec, tier="quick"):
                 if not same:
                     out.violate("frame", f"init_states changed .nodes[{r}, {col!r}] from {b[r]!r} to {a[r]!r}, which no inserted channel owns")
                     break
-    partial = any(len(c["rows"]) < N for c in spec["channels"])
-    if len(spec["channels"]) >= 2 and partial and len(set(spec["v"])) > 1:
-        out.nontrivial_keys.append(core.h([spec["morph"]["cells"], [(c["mech"], c["name"], c["rows"]) for c in spec["channels"]], spec["v"]]))
-    out.classes.append(f"{len(spec['channels'])} channels")
-    if partial:
-        out.classes.append("partial insertion")
-    for c in spec["channels"]:
-        out.classes.append(c["mech"] + (":renamed" if c["name"] else ""))
     return out
 
 
